@@ -4,7 +4,9 @@
     Part 1: FileStorage's key operations on the directory tree ([FileSys.Model]).
     Part 2: Store through internal/atomicfile against Loads, Deletes and SIGKILL
             ([FileSys.Lts]): any number of threads, any interleaving of their system calls. *)
-From CM Require Import Lib.Str FileSys.Model FileSys.Proofs FileSys.Lts FileSys.LtsProofs.
+From Coq Require Import List ZArith.
+From CM Require Import Lib.Str FileSys.Model FileSys.Proofs FileSys.Lts FileSys.LtsProofs FileSys.Check FileSys.Extra.
+Import ListNotations.
 
 (** ** Part 1 — sequential key semantics, for every sequence of operations *)
 
@@ -153,3 +155,104 @@ Proof.
   - split; [|exists demo_run; exact E]. repeat split; intros; discriminate.
   - revert E. vm_compute. intros E; injection E; intros <-. cbn. repeat split; discriminate.
 Qed.
+
+
+(** ** theorems added in the last round (proofs in FileSys/Extra.v) *)
+
+(** An empty value is a value: after a successful Store of [] the key exists, Load returns the
+    empty value with a nil error, Stat says a terminal key of size 0; and a concurrent Load whose
+    open bound an inode holding the empty value returns [Some []], never not-exist. *)
+Theorem C10_empty_value_is_a_value : forall fs k, reachable_fs fs -> ocls (snd (fs_store fs k [])) = ROk ->
+  let fs' := fst (fs_store fs k []) in
+  fs_load fs' k = Obs ROk [] false [] 0 /\ oflag (fs_exists fs' k) = true /\
+  fs_stat fs' k = Obs ROk [] true [] 0.
+Proof. exact empty_value_is_a_value. Qed.
+Print Assumptions C10_empty_value_is_a_value.
+
+Theorem C10_load_of_empty_value : forall s t k i (n : nat),
+  thr s t = ROpen k i [] -> data s i = [] -> (1 <= n)%nat ->
+  exists s', FileSys.Lts.step s (LRead t n) = Some s' /\ thr s' t = RDone k (Some []).
+Proof. exact load_of_empty_value. Qed.
+Print Assumptions C10_load_of_empty_value.
+
+(** A Store that reports an error is invisible: every lookup, Load, Exists, Stat and List
+    (recursive or not, of any prefix) answers as before - List never shows a key whose Store failed. *)
+Theorem C10_failed_store_invisible : forall fs k v, reachable_fs fs -> is_ok (snd (fs_store fs k v)) = false ->
+  let fs' := fst (fs_store fs k v) in
+  (forall q, lookup fs' q = lookup fs q) /\
+  (forall q, fs_load fs' q = fs_load fs q) /\
+  (forall q, fs_exists fs' q = fs_exists fs q) /\
+  (forall q, fs_stat fs' q = fs_stat fs q) /\
+  (forall p rec q, In q (okeys (fs_list fs' p rec)) <-> In q (okeys (fs_list fs p rec))).
+Proof. exact failed_store_invisible. Qed.
+Print Assumptions C10_failed_store_invisible.
+
+(** The temp file of a Store that has not renamed yet is reachable under its temp name only - no
+    key ever names its inode, in any reachable state of any schedule; and when the Store fails it
+    is unreachable for good. *)
+Theorem C10_unfinished_store_invisible : forall s0 s t k v tmp i off, reachable s0 s ->
+  wtemp (thr s t) = Some (k, v, tmp, i, off) ->
+  dir s (NTemp tmp) = Some i /\ forall k', dir s (NDest k') <> Some i.
+Proof. exact unfinished_store_invisible. Qed.
+Print Assumptions C10_unfinished_store_invisible.
+
+Theorem C10_failed_store_leaves_nothing : forall s0 s t k v tmp i off s', reachable s0 s ->
+  wtemp (thr s t) = Some (k, v, tmp, i, off) -> FileSys.Lts.step s (LFail t) = Some s' ->
+  dir s' (NTemp tmp) = None /\ (forall k', dir s' (NDest k') <> Some i) /\
+  (forall k', named_value s' k' = named_value s k').
+Proof. exact failed_store_leaves_nothing. Qed.
+Print Assumptions C10_failed_store_leaves_nothing.
+
+(** What the monitors of the concurrent cases check, as statements about the observation. *)
+Theorem C10_history_monitor_sound : forall h, hist_ok h = true ->
+  (forall e, In e h -> is_load e = false -> (0 < vid e)%Z \/ vid e = (-4)%Z) /\
+  (forall l, In l h -> is_load l = true -> hempty l = false ->
+     exists w, In w h /\ is_load w = false /\ vid w = vid l /\ (0 < vid w)%Z /\ (t0 w < t1 l)%Z /\
+       forall w', In w' h -> is_load w' = false -> (0 < vid w')%Z -> ~ ((t1 w < t0 w')%Z /\ (t1 w' < t0 l)%Z)).
+Proof. exact hist_ok_sound. Qed.
+Print Assumptions C10_history_monitor_sound.
+
+Theorem C10_write_fault_monitor_sound : forall r_old r_fresh loaded expected fresh_exists stat_fresh dirents,
+  check_fault r_old r_fresh loaded expected fresh_exists stat_fresh dirents = 0%Z ->
+  loaded = expected /\ fresh_exists <> 1%Z /\ stat_fresh = 1%Z /\ dirents = 1%Z /\ r_old <> 0%Z /\ r_fresh <> 0%Z.
+Proof. exact check_fault_sound. Qed.
+Print Assumptions C10_write_fault_monitor_sound.
+
+Theorem C10_crash_monitor_sound : forall acked started loaded, check_crash acked started loaded = 0%Z ->
+  (loaded = acked \/ loaded = started) /\ (started = acked \/ started = (acked + 1)%Z).
+Proof. exact check_crash_sound. Qed.
+Print Assumptions C10_crash_monitor_sound.
+
+(** hypotheses met: a Store that fails on a reachable tree (key below a file), and a schedule
+    with a writer in the middle of its Store *)
+Example C10_failed_store_hypotheses_satisfiable :
+  let fs := fst (fs_run [] [OpStore [ka] [1%N]; OpStore [kb; ka] [2%N]]) in
+  reachable_fs fs /\ is_ok (snd (fs_store fs [ka; kb] [3%N])) = false /\
+  is_ok (snd (fs_store fs [kb] [3%N])) = false.
+Proof. split; [eexists; reflexivity | split; vm_compute; reflexivity]. Qed.
+Example C10_unfinished_store_hypotheses_satisfiable :
+  exists s, FileSys.Lts.run init_empty [LSpawnStore 1 7 [1%N; 1%N]; LCreate 1 0; LWrite 1 1]%nat = Some s /\
+    reachable init_empty s /\ wtemp (thr s 1%nat) = Some (7%nat, [1%N; 1%N], 0%nat, 0%nat, 1%nat).
+Proof.
+  destruct (FileSys.Lts.run init_empty [LSpawnStore 1 7 [1%N; 1%N]; LCreate 1 0; LWrite 1 1]%nat) as [s|] eqn:E;
+    [|vm_compute in E; discriminate].
+  exists s. split; [reflexivity|]. split.
+  - split; [repeat split; intros; discriminate | eexists; exact E].
+  - revert E. vm_compute. intros E; injection E; intros <-. reflexivity.
+Qed.
+
+(** the system-call monitor accepts the model's own Store, whatever the length of the value and
+    however its writes are split ([spec_ok x (model x) = true] for the Store traces) *)
+Theorem C10_store_trace_monitor_accepts_model : forall ws,
+  store_trace_ok (Z.of_nat (fold_right Nat.add 0%nat ws)) (sev_of_store ws) = true.
+Proof. exact store_trace_ok_of_model. Qed.
+Print Assumptions C10_store_trace_monitor_accepts_model.
+
+Theorem C10_load_trace_monitor_accepts_model : forall rs,
+  load_trace_ok (Z.of_nat (fold_right Nat.add 0%nat rs)) (sev_of_load rs) = true.
+Proof. exact load_trace_ok_of_model. Qed.
+Print Assumptions C10_load_trace_monitor_accepts_model.
+
+Theorem C10_delete_trace_monitor_accepts_model : delete_trace_ok [Sev 9 1 0] = true /\ lts_delete = Some [9%Z].
+Proof. exact delete_trace_ok_of_model. Qed.
+Print Assumptions C10_delete_trace_monitor_accepts_model.
